@@ -433,3 +433,28 @@ Proof.
     cbn [rbind]. rewrite sub_two by lia. reflexivity.
   - change 0 with (Z.of_nat 0) at 1. change 2 with (Z.of_nat 2) at 1. rewrite g_slice_oob by lia. reflexivity.
 Qed.
+
+(* ---- Message.IsError / Message.ErrorCode on accepted frames (Go's && short-circuits; on an accepted frame every
+   accessor is in bounds, so the order of evaluation does not show) ---- *)
+Theorem is_error_agrees m : wf_bytes m -> validate m = VOk ->
+  g_Message_IsError m = match is_error m with Some b => Val b | None => Pan end.
+Proof.
+  intros Hw Ev. destruct (XS.Proofs.FrameProofs.accessors_in_bounds m Ev) as (Hid & Hext & Hlen & _).
+  unfold g_Message_IsError, is_error. rewrite (identifier_agrees m Hw), is_extended_total, (length_agrees m Hw).
+  rewrite Hid, Hext, Hlen. cbn [rbind]. unfold mid_error.
+  destruct (N.eqb_spec (nthb m 2) 66) as [E|E]; destruct (Z.eqb_spec (Z.of_N (nthb m 2)) 66); try lia; cbn [rbind andb negb]; [|reflexivity].
+  destruct (nthb m 3 =? 255)%N; cbn [rbind andb negb]; [reflexivity|].
+  destruct (N.eqb_spec (decl_len m) 1) as [E1|E1]; destruct (Z.eqb_spec (Z.of_N (decl_len m)) 1); try lia; reflexivity.
+Qed.
+
+Theorem error_code_agrees m : wf_bytes m -> validate m = VOk ->
+  g_Message_ErrorCode m = match error_code m with Some c => Val (Z.of_N c) | None => Pan end.
+Proof.
+  intros Hw Ev. unfold g_Message_ErrorCode, error_code. rewrite (is_error_agrees m Hw Ev).
+  destruct (XS.Proofs.FrameProofs.accessors_in_bounds m Ev) as (_ & _ & _ & _ & _ & _ & Hie & _). rewrite Hie. cbn [rbind].
+  destruct ((nthb m 2 =? mid_error)%N && negb (nthb m 3 =? 255)%N && (decl_len m =? 1)%N); cbn [negb rbind]; [|reflexivity].
+  assert (H5 : (5 <= length m)%nat).
+  { apply XS.Proofs.FrameProofs.validate_iff_wf in Ev. destruct Ev as (H & _). exact H. }
+  rewrite (g_index_z m 4) by lia. change (Z.to_nat 4) with 4%nat. cbn [rbind]. rewrite get_nthb by lia.
+  f_equal. unfold wrap_u. change (2 ^ 8) with 256. pose proof (nthb_byte m 4 Hw). rewrite Z.mod_small by lia. reflexivity.
+Qed.
